@@ -95,7 +95,8 @@ Definition no_meta (l : str) : Prop := forallb (fun c => negb (is_meta4 c)) l = 
 Inductive hnode : Type :=
 | El (tag : str) (opts : list str) (attrs : list (str * str)) (kids : list hnode)
 | Txt (s : str)      (* data in text position: written through Html.escape *)
-| Raw (s : str).     (* data written verbatim (the defect position; never produced by tree_view) *)
+| Raw (s : str)      (* data written verbatim (the defect position; never produced by tree_view) *)
+| RawEl (tag : str) (body : str).   (* a constant <style> / <script> block: the body is written verbatim *)
 
 Definition render_opt (o : str) : str := c_sp :: o.
 (* attribute values hold the unescaped value; it is written escaped between double quotes *)
@@ -109,6 +110,7 @@ Fixpoint render (t : hnode) : str :=
   | El tag opts attrs kids => open_tag tag opts attrs ++ flat_map render kids ++ close_tag tag
   | Txt s => escape s
   | Raw s => s
+  | RawEl tag body => open_tag tag [] [] ++ body ++ close_tag tag
   end.
 Definition render_list (ts : list hnode) : str := flat_map render ts.
 
@@ -117,12 +119,18 @@ Definition is_alpha (c : N) : bool := ((65 <=? c) && (c <=? 90)) || ((97 <=? c) 
 Definition is_name_char (c : N) : bool := is_alpha c || ((48 <=? c) && (c <=? 57)) || (c =? 45) || (c =? 95).
 Definition name_okb (n : str) : bool :=
   match n with [] => false | c :: r => is_alpha c && forallb is_name_char r end.
+(* raw-text elements: their content is not parsed (it ends at the first lt, which must start the closing tag) *)
+Definition s_style_tag : str := Eval compute in str_of "style".
+Definition s_script_tag : str := Eval compute in str_of "script".
+Definition is_raw_tag (tag : str) : bool := str_eqb tag s_style_tag || str_eqb tag s_script_tag.
+Definition no_lt (s : str) : bool := forallb (fun c => negb (c =? c_lt)) s.
 Fixpoint names_okb (t : hnode) : bool :=
   match t with
   | El tag opts attrs kids =>
-      name_okb tag && forallb name_okb opts && forallb (fun a => name_okb (fst a)) attrs && forallb names_okb kids
+      name_okb tag && negb (is_raw_tag tag) && forallb name_okb opts && forallb (fun a => name_okb (fst a)) attrs && forallb names_okb kids
   | Txt _ => true
   | Raw _ => false
+  | RawEl tag body => is_raw_tag tag && no_lt body
   end.
 Definition names_ok (t : hnode) : Prop := names_okb t = true.
 
@@ -164,7 +172,10 @@ Inductive mode :=
 | MAEq (o : otag) (an : str)                  (* after the equals sign: a double quote must follow *)
 | MAVal (o : otag) (an : str) (t : tstate)    (* inside a quoted attribute value *)
 | MAEnd (o : otag)                            (* after the closing quote: space or gt *)
-| MClose (name : str).                        (* reading the name of a closing tag *)
+| MClose (name : str)                         (* reading the name of a closing tag *)
+| MRawText (acc : str)                        (* inside <style> / <script>: everything up to the next lt *)
+| MRawClose (acc : str)                       (* after that lt: a slash must follow *)
+| MRawCloseName (acc : str) (name : str).     (* reading the name of the closing tag of a raw-text element *)
 
 (* an open element: its tag/options/attributes and the children its parent had before it *)
 Definition frame := (otag * list hnode)%type.
@@ -173,7 +184,15 @@ Inductive pstate := PS (m : mode) (kids : list hnode) (stack : list frame) | PEr
 Definition flush_text (t : str) (kids : list hnode) : list hnode :=
   match t with [] => kids | _ => kids ++ [Txt t] end.
 Definition push_open (o : otag) (kids : list hnode) (stack : list frame) : pstate :=
-  PS (MText (TS [] None)) [] ((o, kids) :: stack).
+  match o with
+  | (tag, opts, attrs) =>
+      if is_raw_tag tag
+      then match opts, attrs with
+           | [], [] => PS (MRawText []) [] ((o, kids) :: stack)
+           | _, _ => PErr
+           end
+      else PS (MText (TS [] None)) [] ((o, kids) :: stack)
+  end.
 
 Definition step (s : pstate) (c : N) : pstate :=
   match s with
@@ -232,6 +251,21 @@ Definition step (s : pstate) (c : N) : pstate :=
           | [] => PErr
           end
         else PErr
+    | MRawText acc =>
+        if c =? c_lt then PS (MRawClose acc) kids stack else PS (MRawText (acc ++ [c])) kids stack
+    | MRawClose acc =>
+        if c =? c_slash then PS (MRawCloseName acc []) kids stack else PErr
+    | MRawCloseName acc name =>
+        if is_name_char c then PS (MRawCloseName acc (name ++ [c])) kids stack
+        else if c =? c_gt then
+          match stack with
+          | ((tag, _, _), pkids) :: rest =>
+              if str_eqb tag name
+              then PS (MText (TS [] None)) (pkids ++ [RawEl tag acc]) rest
+              else PErr
+          | [] => PErr
+          end
+        else PErr
     end
   end.
 
@@ -251,17 +285,22 @@ Fixpoint absorb (st : list hnode * str) (t : hnode) {struct t} : list hnode * st
   | Txt s => (fst st, snd st ++ s)
   | Raw s => (fst st, snd st ++ s)
   | El tag opts attrs kids => (flush st ++ [El tag opts attrs (flush (fold_left absorb kids ([], [])))], [])
+  | RawEl tag body => (flush st ++ [RawEl tag body], [])
   end.
 Definition normalize (ts : list hnode) : list hnode := flush (fold_left absorb ts ([], [])).
 
 (* element names, option names, attribute names and texts of a tree *)
 Fixpoint collect {X} (g : str -> list str -> list (str * str) -> list X) (t : hnode) : list X :=
-  match t with El tag opts attrs kids => g tag opts attrs ++ flat_map (collect g) kids | _ => [] end.
+  match t with
+  | El tag opts attrs kids => g tag opts attrs ++ flat_map (collect g) kids
+  | RawEl tag _ => g tag [] []
+  | _ => []
+  end.
 Definition tags_of : hnode -> list str := collect (fun tag _ _ => [tag]).
 Definition optnames_of : hnode -> list str := collect (fun _ opts _ => opts).
 Definition attrnames_of : hnode -> list str := collect (fun _ _ attrs => map fst attrs).
 Fixpoint texts_of (t : hnode) : list str :=
-  match t with El _ _ _ kids => flat_map texts_of kids | Txt s => [s] | Raw s => [s] end.
+  match t with El _ _ _ kids => flat_map texts_of kids | Txt s => [s] | Raw s => [s] | RawEl _ _ => [] end.
 
 (* ---------------------------------------------------------------------------------------------- *)
 (* 5. the tree view                                                                                  *)
@@ -527,7 +566,7 @@ Definition path_included (o : opts) (p : list key) : bool :=
    pv   ::= (0 lkind tname cname raw rep fmt) | (1 is_seq tname cname fmt ((key pv) ...))
    opts ::= (name? root_path enable_summary? for_str max_len summary_tooltip key_tooltip label_keys include? exclude? collapse? uncollapse
             css (color? bg?) (color? bg?))
-   tree ::= (0 tag (opt ...) ((name value) ...) (tree ...)) | (1 text) | (2 raw)                                        *)
+   tree ::= (0 tag (opt ...) ((name value) ...) (tree ...)) | (1 text) | (2 raw) | (3 tag body)                                        *)
 Definition d_key (t : tr) : option key :=
   match t with
   | L [I 0%Z; I z] => Some (KInt z)
@@ -574,6 +613,7 @@ Fixpoint e_hnode (t : hnode) : tr :=
       L [I 0%Z; estr tag; elist estr opts; elist (epair estr estr) attrs; L (map e_hnode kids)]
   | Txt s => L [I 1%Z; estr s]
   | Raw s => L [I 2%Z; estr s]
+  | RawEl tag body => L [I 3%Z; estr tag; estr body]
   end.
 
 Definition no_metab (l : str) : bool := forallb (fun c => negb (is_meta4 c)) l && amps_ok l.
